@@ -655,6 +655,13 @@ def _div(a, b):
     return a / b
 
 
+def _round_half_even(e):
+    """Python's round() / numpy's rint: nearest integer, exact halves go to the even neighbour"""
+    up = z3.ToInt(e + z3.RealVal("1/2"))
+    tie = z3.ToReal(up) == e + z3.RealVal("1/2")
+    return z3.If(z3.And(tie, up % 2 != 0), up - 1, up)
+
+
 def _pyfloordiv(a, b):
     return z3.If(b > 0, a / b, (-a) / (-b))
 
@@ -895,8 +902,7 @@ class SNum:
         if self.is_int:
             return self
         if n is None:
-            # round-half-even differs from floor(x+1/2) only at exact .5; flagged as model
-            return SNum(z3.ToInt(self.e + z3.RealVal("1/2")))
+            return SNum(_round_half_even(self.e))
         raise TypeError("round with digits on symbolic")
 
     def __floor__(self):
@@ -922,7 +928,7 @@ class SNum:
         return self if self.is_int else SNum(-z3.ToReal(z3.ToInt(-self.e)))
 
     def rint(self):
-        return self if self.is_int else SNum(z3.ToReal(z3.ToInt(self.e + z3.RealVal("1/2"))))
+        return self if self.is_int else SNum(z3.ToReal(_round_half_even(self.e)))
 
     def conjugate(self):
         return self
